@@ -54,7 +54,7 @@ def run(tier):
     sd = seed()
     cbuild.build()
     variants = 6 if tier == 'quick' else 160
-    v128, nlay = (2, 2) if tier == 'quick' else (60, 4)
+    v128, nlay = (2, 2) if tier == 'quick' else (36, 4)
     n = len(simdrv.slots())
     chunks = [(sd * 4099 + k, list(range(k, n, 16)), variants) for k in range(16)]
     chunks128 = [(sd * 8191 + 77 + k, list(range(k, n, 15)), v128, nlay) for k in range(15)]
